@@ -86,6 +86,8 @@ def _bn_calls(model, spec, case):
     strn = spec["name_kind"] in ("str", "word")
     virt = lambda: _virtual_cpds(spec, case["virtual"]) if case["virtual"] else None  # noqa: E731
     tmp = os.environ.get("VF_TMP") or "/tmp"
+    # rejection-based calls loop until enough samples are accepted: use them only when the evidence is likely enough
+    likely = (not ev) or Joint.from_bn(spec).prob(dict(ev)) >= 0.02
     calls = {
         "VE.query": lambda: VariableElimination(model).query(q, evidence=ev or None, virtual_evidence=virt(), show_progress=False),
         "VE.query[MinFill]": lambda: VariableElimination(model).query(q, evidence=ev or None, elimination_order="MinFill", show_progress=False),
@@ -122,11 +124,12 @@ def _bn_calls(model, spec, case):
             "UAIWriter": lambda: str(UAIWriter(model)),
             "NETWriter": lambda: str(NETWriter(model)),
             "save[xmlbif]": lambda: model.save(os.path.join(tmp, "pure.xmlbif"), filetype="xmlbif"),
-            "ApproxInference.query": lambda: ApproxInference(model).query(q, n_samples=20, evidence=ev or None, show_progress=False, seed=1),
         })
+        if likely:
+            calls["ApproxInference.query"] = lambda: ApproxInference(model).query(q, n_samples=20, evidence=ev or None, show_progress=False, seed=1)
         if len(spec["nodes"]) <= 3:
             calls["BIFWriter"] = lambda: str(BIFWriter(model))
-    if ev:
+    if ev and likely:
         calls["rejection_sample"] = lambda: BayesianModelSampling(model).rejection_sample(evidence=evs, size=3, seed=1, show_progress=False)
     from .c03 import _moral_connected
 
@@ -449,7 +452,7 @@ def relabel_case(draw):
     case = draw(query_case(max_nodes=5, name_kinds=("str",), allow_virtual=False))
     spec = case["spec"]
     n = len(spec["nodes"])
-    newnames = list(draw(st.permutations(["z9", "Y", "m_1", "aa", "K0"])))[:n]
+    newnames = list(draw(st.permutations(["z9", "Y", "m_1", "aa", "K0", "q", "Zz"])))[:n]  # up to 5 nodes + 2 twin sensors
     name_kind = draw(st.sampled_from(["str", "int", "tuple"]))
     state_perms = [list(draw(st.permutations(list(range(k))))) for k in spec["card"]]
     rename_states = draw(st.booleans())
@@ -739,7 +742,25 @@ def check_torch(case, out):
     out.sample = {"nodes": spec["nodes"], "query": q}
 
 
+def check_purity_factor_ops(case, out):
+    """factor operations leave their operands alone: the C04 operation cases, keeping only the purity verdicts (operand
+    modified by an out-of-place call, result sharing storage with an operand); values are C04's business"""
+    from ..core import Out
+    from . import c04
+
+    inner = Out()
+    c04.check_op(case, inner)
+    out.nontrivial, out.evals, out.sample = inner.nontrivial, inner.evals, inner.sample
+    out.cls(*inner.classes)
+    for label, detail in inner.failures:
+        if "operand_modified" in label or "aliases_operand" in label:
+            out.fail(label, detail)
+
+
 SUBCHECKS = [
+    Sub("purity_factor_ops", check_purity_factor_ops, strategy=lambda tier: __import__("vf.props.c04", fromlist=["fcase"]).fcase(),
+        n={"quick": 250, "thorough": 4000}, shards={"quick": 4, "thorough": 8},
+        doc="DiscreteFactor operations (product, sum, divide, marginalize, reduce, maximize, normalize, ...) do not modify their operands and do not alias them"),
     Sub("purity_bn", check_purity_bn, strategy=lambda tier: query_case(max_nodes=5), n={"quick": 40, "thorough": 600},
         shards={"quick": 8, "thorough": 16}, doc="~45 inference / sampling / export / conversion calls leave the Bayesian network passed to them unchanged"),
     Sub("purity_data", check_purity_data, strategy=lambda tier: data_case(), n={"quick": 12, "thorough": 200},
